@@ -13,6 +13,8 @@ import os
 import shutil
 import traceback
 
+from pathlib import Path
+
 import numpy as np
 
 from .. import c13_formats as F
@@ -364,6 +366,9 @@ def case_ndbc(ws, rng, tmp, res, tier):
             for i in range(nf):
                 if comps["swdir"][it][i] == 999.0:
                     comps["spec"][it][i] = 0.0
+                    if variant == "realtime":
+                        # real files carry the marker in all four moment files of an empty bin
+                        comps["swdir2"][it][i] = comps["swr1"][it][i] = comps["swr2"][it][i] = 999.0
     sep = [rng.randint(100, 400) / 1000.0 for _ in range(nt)] if variant == "realtime" else None
     times_f = [times[i] for i in perm]
     comps_f = {k: [v[i] for i in perm] for k, v in comps.items()}
@@ -1221,6 +1226,56 @@ def compare_model(ck, res, ctx, resp):
         ck.count("model:swan_gridpos")
 
 
+def swanow_cases(ck):
+    """`read_swanow` (SWAN nowcast files read together): the union of the records sorted by time; where the files overlap in
+    time the record of the most recent file (last in name order) is returned.  Reference = `read_swan` of each file."""
+    import shutil
+    import tempfile
+    import xarray as xr
+    from wavespectra.input.swan import read_swan, read_swanow
+
+    rng = ck.rng
+    for it in range(5 if ck.tier == "quick" else 60):
+        tmp = Path(tempfile.mkdtemp(prefix="c13now_"))
+        try:
+            nfile, nf, nd = rng.choice([2, 2, 3]), rng.choice([3, 5]), rng.choice([4, 8])
+            freq = np.round(0.05 * 1.2 ** np.arange(nf), 4)
+            dirs = np.arange(nd) * (360.0 / nd)
+            t0 = np.datetime64("2021-03-01T00:00:00")
+            paths, starts, lens = [], [], []
+            for k in range(nfile):
+                start = (starts[-1] + rng.randint(1, lens[-1])) if k else 0  # overlaps the previous file
+                n = rng.randint(2, 4)
+                starts.append(start); lens.append(n)
+                times = (t0 + (start + np.arange(n)) * np.timedelta64(3600, "s")).astype("datetime64[ns]")
+                E = np.array([[[[round(rng.uniform(0.001, 2.0), 4) for _ in range(nd)] for _ in range(nf)]] for _ in range(n)])
+                ds = xr.DataArray(E, dims=("time", "site", "freq", "dir"), coords=dict(time=times, site=[1], freq=freq, dir=dirs), name="efth").to_dataset()
+                ds["lon"] = (("site",), [170.25]); ds["lat"] = (("site",), [-40.5])
+                p = tmp / ("now_%04d.spec" % k)
+                ds.spec.to_swan(str(p))
+                paths.append(str(p))
+            parts = [read_swan(p) for p in paths]
+            got = read_swanow(paths)
+            want = {}
+            for part in parts:   # later files overwrite earlier ones
+                for i, t in enumerate(part.time.values):
+                    want[t] = np.asarray(part.efth.isel(time=i).values, dtype=float)
+            wt = sorted(want)
+            case = dict(files=nfile, starts=starts, lengths=lens, nf=nf, nd=nd)
+            ck.case(("read_swanow", nfile, nf, nd), True, sample=dict(op="read_swanow", **case))
+            gt = list(got.time.values)
+            if gt != wt:
+                ck.fail("read_swanow", f"times {[str(t)[:16] for t in gt]} instead of the sorted union {[str(t)[:16] for t in wt]}", case, "swanow_times")
+                continue
+            bad = [str(t)[:16] for i, t in enumerate(gt) if not np.array_equal(np.asarray(got.efth.isel(time=i).values, dtype=float).reshape(want[t].shape), want[t])]
+            if bad:
+                ck.fail("read_swanow", f"records at {bad} are not those of the most recent file that holds them", case, "swanow_overlap")
+        except Exception as e:
+            ck.fail("read_swanow", f"raised {type(e).__name__}: {e}", dict(it=it), "crash")
+        finally:
+            shutil.rmtree(tmp, ignore_errors=True)
+
+
 def run_check():
     ck = Check("C13")
     ck.extra["rule"] = ("one case = one set of files of one format written by the reference encoder and read by the real reader; "
@@ -1263,6 +1318,7 @@ def run_check():
     resps = run_driver(reqs) if reqs else []
     for (res, ctx), resp in zip(owners, resps):
         compare_model(ck, res, ctx, resp)
+    swanow_cases(ck)
     ck.assumptions = [
         "tokenisation, float()/strptime/dateutil/pandas/json/loadmat parsing are not modelled in Lean: carried by the differential "
         "comparison against the reference encoders (DESIGN §1.5-3)",
